@@ -50,6 +50,8 @@ inductive CDecl where
   | workload (res : String) (intervals : List ((Int × Int) × Int)) (kind : CountKind)
   | nonDelay (res : String)
   | distance (res : String) (d : Int) (intervals : Option (List (Int × Int))) (mode : CountKind)
+  | interrupted (res : String) (intervals : List (Int × Int))
+  | periodicallyUnavailable (res : String) (intervals : List (Int × Int)) (period start offset : Int) (end_ : Option Int)
   | sameWorkers (s1 s2 : Nat)
   | distinctWorkers (s1 s2 : Nat)
   | unloadBuffer (t : String) (b : String) (q : Int)
@@ -263,6 +265,7 @@ def State.markOperands (st : State) (ids : List Nat) : State :=
 inductive Resolved where
   | body (b : CBody) (marks : List Nat)    -- constructor runs to the end
   | raises (e : Err) (marks : List Nat)    -- registered, then raises (residue)
+  | raisesWith (e : Err) (b : CBody)       -- registered, appends the assertions of `b`, then raises
   | invalid (e : Err)                      -- rejected before registration
   deriving Inhabited
 
@@ -281,7 +284,8 @@ def className : CDecl → String
   | .forceApplyN .. => "ForceApplyNOptionalConstraints" | .not_ .. => "Not" | .or_ .. => "Or"
   | .and_ .. => "And" | .xor_ .. => "Xor" | .implies .. => "Implies" | .ifThenElse .. => "IfThenElse"
   | .unavailable .. => "ResourceUnavailable" | .workload .. => "WorkLoad" | .nonDelay .. => "ResourceNonDelay"
-  | .distance .. => "ResourceTasksDistance" | .sameWorkers .. => "SameWorkers"
+  | .distance .. => "ResourceTasksDistance" | .interrupted .. => "ResourceInterrupted"
+  | .periodicallyUnavailable .. => "ResourcePeriodicallyUnavailable" | .sameWorkers .. => "SameWorkers"
   | .distinctWorkers .. => "DistinctWorkers" | .unloadBuffer .. => "TaskUnloadBuffer"
   | .loadBuffer .. => "TaskLoadBuffer" | .indicatorTarget .. => "IndicatorTarget"
   | .indicatorBounds .. => "IndicatorBounds"
@@ -355,6 +359,25 @@ def State.resolve (st : State) : CDecl → Resolved
   | .distance res d ivs m => match st.resBusy res false with
       | some busy => if busy.length < 2 then .raises .assertion [] else .body (.distance busy d ivs m) []
       | none => .invalid .validation
+  | .interrupted res ivs =>
+      -- per (unit) worker: its busy intervals paired with their tasks
+      let units := match st.findWorker res with
+        | some _ => some [res]
+        | none => (st.findCumul res).map (fun (cw : Cumul) => cw.units)
+      (match units with
+       | none => .invalid .validation
+       | some us =>
+           let ws := us.map (fun u => (st.busyRefs u).filterMap (fun (b : BusyRef) => (st.findTask b.task).map (fun t => (b, t))))
+           if ws.all (·.isEmpty) then .raisesWith .assertion (.interrupted ws ivs) else .body (.interrupted ws ivs) [])
+  | .periodicallyUnavailable res ivs period start offset end_ =>
+      (match st.findWorker res with
+       | some _ =>
+           let busy := st.busyRefs res
+           if busy.isEmpty || ivs.isEmpty then .raises .assertion []
+           else .body (.periodicallyUnavailable busy ivs period start offset end_) []
+       | none => match st.findCumul res with
+           | some _ => .raises .attribute []      -- `self.resource.cumulative_workers` does not exist
+           | none => .invalid .validation)
   | .sameWorkers a b => match st.findSelect a, st.findSelect b with
       | some a, some b => .body (.sameWorkers a b) [] | _, _ => .invalid .validation
   | .distinctWorkers a b => match st.findSelect a, st.findSelect b with
@@ -378,6 +401,14 @@ def stepConstr (st : State) (name : Option String) (optional : Bool) (d : CDecl)
       else
         let c : Constr := { id := st.constrs.length, name, cls := className d, optional, operand := false, body := .residue, refs := marks }
         fail ({ st with constrs := st.constrs ++ [c] }.markOperands marks) e
+  | .raisesWith e b =>
+      if !st.active then fail st .attribute
+      else if name.isSome && st.constrs.any (·.name == name) then fail st .value
+      else
+        let c : Constr := { id := st.constrs.length, name, cls := className d, optional, operand := false, body := b }
+        match firstDup [] c.asserts 0 with
+        | none => fail { st with constrs := st.constrs ++ [c] } e
+        | some k => fail { st with constrs := st.constrs ++ [{ c with body := .partial_ ((b.raw c.id).take k) }] } .assertion
   | .body b marks =>
       if !st.active then fail st .attribute
       else if name.isSome && st.constrs.any (·.name == name) then fail st .value
